@@ -683,7 +683,7 @@ func c14(c *core.Ctx) {
 		return
 	}
 	specials := c14Specials()
-	total := c.N(20000, 500000)
+	total := c.N(20000, 1500000)
 	if total < len(specials) {
 		total = len(specials)
 	}
